@@ -225,6 +225,9 @@ class FnTranslator:
         for s in stmts:
             if isinstance(s, ast.Assign):
                 for t in s.targets:
+                    if isinstance(t, (ast.Tuple, ast.List)) and all(isinstance(e, ast.Name) for e in t.elts):
+                        out.extend(e.id for e in t.elts)
+                        continue
                     d = dotted(t)
                     if d is None:
                         raise Untranslatable("assignment target")
@@ -300,7 +303,25 @@ class FnTranslator:
         if isinstance(s, ast.Assign):
             if len(s.targets) != 1:
                 raise Untranslatable("multiple assignment")
-            d = dotted(s.targets[0])
+            tgt = s.targets[0]
+            # `a, b, c = struct.unpack(fmt, data)` -> pattern match on the field list, elements bound to the target names
+            if isinstance(tgt, (ast.Tuple, ast.List)) and isinstance(s.value, ast.Call) and dotted(s.value.func) == "struct.unpack" \
+                    and all(isinstance(e, ast.Name) for e in tgt.elts):
+                fmt = s.value.args[0]
+                if not (isinstance(fmt, ast.Constant) and isinstance(fmt.value, str)):
+                    raise Untranslatable("struct.unpack with a non-literal format")
+                ws = parse_fmt(fmt.value)
+                if len(ws) != len(tgt.elts):
+                    raise Untranslatable("struct.unpack: number of targets differs from the number of fields")
+                names = [e.id for e in tgt.elts]
+                for n in names:
+                    self.bind(n)
+                data = self.expr(s.value.args[1]) if not isinstance(s.value.args[1], ast.Name) else lname(s.value.args[1].id)
+                body = self.block(rest, cont, ind + "  ")
+                pat = "[" + ", ".join(lname(n) for n in names) + "]"
+                return (f"match Py.unpackBE {ws} {data} with\n{ind}| .ok {pat} =>\n{ind}  {body}\n"
+                        f"{ind}| .ok _ => .error .structError\n{ind}| .error e => .error e")
+            d = dotted(tgt)
             if d is None:
                 raise Untranslatable("assignment target")
             # struct.unpack -> pattern match on the field list
